@@ -798,6 +798,21 @@ theorem M_block_refines_S (cfg : Config) (S0 : State) (p Bm C T k : Nat) (commit
   ⟨(BlockM.processBlock_any cfg S0 p Bm C T k committee K KA KD ctx block ha htyped).1.1,
    (BlockM.postSlot_any cfg S0 p Bm C T k committee K KA KD ctx block ha htyped r hroot).1.1⟩
 
+/-- `stateTransition_allForks_eq` — `StateTransition` = `process_slots; verify signature; process_block; state-root check`
+on every fork with no premise about the operations: C02's full `processSlots_eq` for the slots part, `M_block_refines_S`'s
+hypotheses (`Admissible`) for the state the slots reach. -/
+theorem stateTransition_allForks_eq (cfg : Config) (block : SignedBlock) (inps : List SlotInputs) (s : State) (C2 N : Nat) (ctx : Ctx)
+    (hspe : 0 < cfg.SLOTS_PER_EPOCH) (hQ : Lemmas.Q cfg C2 N (get_current_epoch cfg s) s)
+    (hbound : C2 + inps.length + N + 1 < FAR_FUTURE_EPOCH)
+    (p Bm C T k : Nat) (committee : SyncCommittee) (K : P0Const cfg (process_slots_pure cfg inps s) Bm C)
+    (KA : P0AConst cfg) (KD : P0DConst cfg Bm)
+    (ha : Admissible cfg (process_slots_pure cfg inps s) p Bm C T committee k ctx block)
+    (htyped : Block.check_types cfg block = .ok ()) (r : Bytes) (hroot : block.o_post_root = some r) :
+    Sim (Block.state_transition_post_slots cfg (process_slots_pure cfg inps s) block)
+      (postSlotTransition cfg ctx (Impl.processSlots cfg inps s) block) := by
+  rw [Zrnt.Proofs.C02.processSlots_eq cfg inps s C2 N hspe hQ hbound]
+  exact BlockM.postSlot_any cfg _ p Bm C T k committee K KA KD ctx block ha htyped r hroot
+
 theorem admissible_forks (f : Fork) : f = .phase0 ∨ f = .altair ∨ f = .bellatrix ∨ f ≥ .capella := BlockM.fork_cases f
 
 /-- non-vacuity of `AltConst`: a small configuration and a total active balance of 64 -/
